@@ -713,7 +713,21 @@ class Exec:
         if mm: return [op(x) for x in split_top(mm.group(1))] if mm.group(1).strip() else []
         mm = re.match(r'\{closure@(src/[^}]+)\}(?: \{ (.*) \})?$', rhs)
         if mm:
-            d = {i: op(f.split(': ', 1)[1]) for i, f in enumerate(split_top(mm.group(2)))} if mm.group(2) else {}
+            fields = split_top(mm.group(2)) if mm.group(2) else []
+            d = {i: op(f.split(': ', 1)[1]) for i, f in enumerate(fields)}
+            # rustc prints one operand per captured *variable*; a closure that captures several fields of one variable (disjoint
+            # captures of `self.a`, `self.b`) has more upvars than printed. The missing operands are the locals that follow the
+            # printed one (they are assigned right before the aggregate and used nowhere else).
+            cf = self.mir.closures.get(mm.group(1))
+            if cf is not None and fields:
+                need = 1 + max([int(x) for x in re.findall(r'\(\*?_1\)?\.(\d+): ', '\n'.join(cf.body))] + [-1])
+                m1 = re.match(r'.*: (?:move|copy) _(\d+)$', fields[-1])
+                if need > len(fields) and m1:
+                    base = int(m1.group(1))
+                    for j in range(1, need - len(fields) + 1):
+                        loc = '_%d' % (base + j)
+                        if loc not in fn.locals: raise Inconclusive('closure %s captures more places than the MIR text shows' % mm.group(1))
+                        d[len(fields) - 1 + j] = op('move ' + loc)
             d['__closure'] = mm.group(1); return d
         mm = re.match(r'(?:[\w]+::)*(?:Option|Result)::<.*>::(None|Some|Ok|Err)(?:\((.*)\))?$', rhs)
         if mm: return Enum(mm.group(1), (op(mm.group(2)),) if mm.group(2) else ())
